@@ -294,7 +294,8 @@ async fn one_case(report: &Report, seed: u64, idx: u64, corrupt: bool) -> Option
         }
     }
     if corrupt {
-        return Some(!findings.is_empty() && indices_seen > 0);
+        // a history that ended without any index cannot have its indexed answer damaged
+        return if indices_seen > 0 { Some(!findings.is_empty()) } else { None };
     }
     for f in &findings {
         report.violation(&f.signature, &f.what, witness(&out, seed, idx, json!({"scenario": scenario}), f));
@@ -339,7 +340,7 @@ pub fn run(args: &Args) -> i32 {
             }
         }
         println!("SELFTEST C24 damaged-indexed-answer detected {fired}/{tried}");
-        return if tried > 0 && fired * 10 >= tried * 7 { 0 } else { 2 };
+        return if tried > 0 && fired == tried { 0 } else { 2 };
     }
     let report = Report::new(
         args,
